@@ -2,9 +2,10 @@
     Property theorems only: statement, [exact] of a lemma proved in Proofs/C08_World.v, [Print Assumptions].
     Model: Model/C08_World.v over the regenerated table Gen/C08_Entropy.v (reference graph + entropy sources of every
     function of the package, produced by harness/translate/c08_entropy.py on every run). *)
-From Coq Require Import List ZArith NArith PArith Bool FMapPositive.
+From Coq Require Import List ZArith QArith NArith PArith Bool FMapPositive.
 From Coq Require String.
-From PV Require Import Lib.Common Gen.C08_Entropy Model.C08_World Proofs.C08_World.
+From PV Require Import Lib.Common Gen.C08_Entropy Model.C08_World Proofs.C08_World Gen.C08_Kernel Model.C08_SeedK Proofs.C08_Kernel
+  Model.C08_Objects Proofs.C08_Copy.
 Import ListNotations String.StringSyntax W.
 Delimit Scope string_scope with string.
 
@@ -159,6 +160,146 @@ Theorem C08_spawn_seeds_in_range : forall n sbits py l py', MT.spawn_ints n sbit
   length l = n /\ Forall (fun x => (x <= 2 ^ sbits - 1)%Z) l.
 Proof. exact WP.spawn_ints_spec. Qed.
 Print Assumptions C08_spawn_seeds_in_range.
+
+(** ** kernel expressions of the CURRENT source (Gen/C08_Kernel.v is regenerated from pybrops/core/random/prng.py and the pymoo
+    optimisers on every run) *)
+
+(** The seeding interface assembled from the generated expressions ([MK], the one the correspondence shards evaluate against the
+    implementation) IS the hand-written bit-exact model: the argument handed to random.seed, the bounds of the draw that seeds
+    numpy's stream, the bounds / count / guard / default of spawn. *)
+Theorem C08_kernel_is_model :
+  (forall s, MK.prng_seed s = MT.prng_seed s) /\
+  (forall n sbits py, MK.spawn_many n sbits py = MT.spawn_ints n sbits py) /\
+  (forall sbits py, MK.spawn_one sbits py = MT.spawn_ints 1 sbits py) /\
+  (forall s, k_seed_py_arg s = s) /\ (k_seed_np_lo = 0 /\ k_seed_np_hi = 2 ^ 32 - 1)%Z /\
+  (forall sbits, k_spawn_one_lo sbits = 0 /\ k_spawn_one_hi sbits = 2 ^ sbits - 1 /\ k_spawn_many_lo sbits = 0 /\ k_spawn_many_hi sbits = 2 ^ sbits - 1)%Z /\
+  (forall n, k_spawn_many_count n = n) /\ (forall n, k_spawn_reject n = (n <? 0)%Z) /\ k_spawn_default_sbits = 64%Z /\
+  (forall s (reqs : list (option nat)) sbits pk pp nk np ents pk2 pp2,
+     MK.seed_scenario_agree s (map (option_map Z.of_nat) reqs) (Some sbits) pk pp nk np ents pk2 pp2 =
+     MT.seed_scenario_agree s (map (fun r => match r with None => 1%nat | Some n => n end) reqs) sbits pk pp nk np ents pk2 pp2).
+Proof.
+  split; [exact k_prng_seed_model|]. split; [intros n sbits py; apply k_spawn_many_model|]. split; [exact k_spawn_one_model|].
+  split; [exact k_seed_py_arg_model|]. split; [exact k_seed_np_bounds_model|]. split; [exact k_spawn_bounds_model|].
+  split; [exact k_spawn_count_model|]. split; [exact k_spawn_reject_model|]. split; [exact k_spawn_default_sbits_model|].
+  exact k_scenario_model.
+Qed.
+Print Assumptions C08_kernel_is_model.
+
+(** seed() as generated: the integer handed to numpy.random.seed is the draw of the python stream seeded with s and never exceeds
+    2^32-1, the largest seed numpy's legacy seeding accepts (an upper bound 2**32 would raise once in 2^32 seeds). *)
+Theorem C08_kernel_seed_numpy_range : forall s py np x py1, MK.prng_seed s = Some (py, np) ->
+  MT.randint k_seed_np_lo k_seed_np_hi (MT.py_seed (k_seed_py_arg s)) = Some (x, py1) ->
+  (x <= 4294967295)%Z /\ np = MT.np_seed x /\ py = py1.
+Proof. exact kernel_seed_numpy_range. Qed.
+Print Assumptions C08_kernel_seed_numpy_range.
+
+(** spawn() as generated: an answered request is the single stream or a non-negative count, yields exactly that many stream seeds,
+    each at most 2^sbits - 1. *)
+Theorem C08_kernel_spawn_request_spec : forall r sbits py l py', MK.spawn_req r sbits py = Some (l, py') ->
+  match r with None => length l = 1%nat | Some n => (0 <= n)%Z /\ length l = Z.to_nat n end /\ Forall (fun x => (x <= 2 ^ sbits - 1)%Z) l.
+Proof. exact kernel_spawn_req_spec. Qed.
+Print Assumptions C08_kernel_spawn_request_spec.
+
+(** the guard of spawn() rejects exactly the negative counts; spawn(0) answers the empty list and leaves the python stream alone *)
+Theorem C08_kernel_spawn_guard : forall n,
+  (k_spawn_reject n = true <-> (n < 0)%Z) /\ (forall sbits py, MK.spawn_req (Some 0%Z) sbits py = Some ([], py)).
+Proof. exact kernel_spawn_guard. Qed.
+Print Assumptions C08_kernel_spawn_guard.
+
+(** the seed every pymoo-based optimiser hands to minimize() (13 call sites, one expression): for every draw u of
+    self.rng.uniform(lo, hi) it is an unsigned 32-bit integer — a function of the optimiser's generator, never None (OS entropy) *)
+Theorem C08_kernel_minimize_seed_range : forall u : Q, Qle k_minimize_u_lo u -> Qlt u k_minimize_u_hi ->
+  (0 <= k_minimize_seed u <= 2 ^ 32 - 1)%Z.
+Proof. exact kernel_minimize_seed_range. Qed.
+Print Assumptions C08_kernel_minimize_seed_range.
+Example C08_kernel_minimize_hyps_satisfiable :
+  Qle k_minimize_u_lo (1 # 2) /\ Qlt (1 # 2) k_minimize_u_hi /\ k_minimize_seed (1 # 2) = 2147483648%Z /\
+  k_minimize_seed 0 = 0%Z /\ k_minimize_seed (4294967295 # 4294967296) = (2 ^ 32 - 1)%Z.
+Proof. repeat split; try (vm_compute; congruence); exact (proj2 kernel_minimize_seed_ends). Qed.
+
+(** ** copies of stochastic components (objects holding a generator; copy / deepcopy / .copy() / .deepcopy() share it) *)
+
+(** Using a copy is using its source: same output, same world afterwards — the generator the source holds is consumed (for
+    rng = None the global numpy stream, for an explicit generator that generator), no generator is allocated. *)
+Theorem C08_copy_is_source : forall (G O : Type) (out_unit : O) (e : OB.env) (d s : nat) (f : G -> O * G) (w : world G),
+  fst (OB.run_obj out_unit [OB.SCopy d s; OB.SUse d f] e w) = out_unit :: fst (OB.run_obj out_unit [OB.SUse s f] e w) /\
+  snd (OB.run_obj out_unit [OB.SCopy d s; OB.SUse d f] e w) = snd (OB.run_obj out_unit [OB.SUse s f] e w).
+Proof. exact OBP.copy_is_source. Qed.
+Print Assumptions C08_copy_is_source.
+
+(** Seeded reproducibility survives copies: for all bindings of objects to generators at the time of seeding, all well-formed
+    programs of calls, constructions, copies and uses after seed(s), all prior worlds. *)
+Theorem C08_seeded_reproducible_with_copies : forall (G O : Type) (out_unit : O) (py_of_seed np_of_seed : Z -> G)
+    (p : list (OB.step G O)) (e : OB.env) (s : Z) (w1 w2 : world G),
+  OB.wf [LPy; LNp] e p ->
+  fst (OB.run_obj out_unit (OB.SCall (seed_call py_of_seed np_of_seed out_unit s) :: p) e w1) =
+  fst (OB.run_obj out_unit (OB.SCall (seed_call py_of_seed np_of_seed out_unit s) :: p) e w2).
+Proof. exact OBP.obj_seeded_reproducible. Qed.
+Print Assumptions C08_seeded_reproducible_with_copies.
+
+(** The experiment of the harness: two different prior histories (arbitrary calls, uses, constructions with rng = None, copies,
+    copies of copies), then seed(s), then a program that may use the objects and copies the histories left behind. *)
+Theorem C08_copies_in_history_reproducible : forall (G O : Type) (out_unit : O) (py_of_seed np_of_seed : Z -> G)
+    (h1 h2 p : list (OB.step G O)) (e1 e2 : OB.env) (s : Z) (w1 w2 : world G),
+  OB.all_np e1 -> OB.all_np e2 -> Forall OB.clean h1 -> Forall OB.clean h2 -> OB.wf [LPy; LNp] (OB.env_after e1 h1) p ->
+  fst (OB.run_obj out_unit (OB.SCall (seed_call py_of_seed np_of_seed out_unit s) :: p) (OB.env_after e1 h1) (snd (OB.run_obj out_unit h1 e1 w1))) =
+  fst (OB.run_obj out_unit (OB.SCall (seed_call py_of_seed np_of_seed out_unit s) :: p) (OB.env_after e2 h2) (snd (OB.run_obj out_unit h2 e2 w2))).
+Proof. exact OBP.obj_history_reproducible. Qed.
+Print Assumptions C08_copies_in_history_reproducible.
+
+(** Isolation survives copies: a program of constructions with generator i, copies and uses leaves both global streams untouched;
+    outputs and the final state of generator i are functions of its initial state. *)
+Theorem C08_explicit_isolated_with_copies : forall (G O : Type) (out_unit : O) (i : nat) (p : list (OB.step G O)) (e : OB.env),
+  OB.only i e p ->
+  forall w, snd (OB.run_obj out_unit p e w) LPy = w LPy /\ snd (OB.run_obj out_unit p e w) LNp = w LNp /\
+    forall w', w' (LEx i) = w (LEx i) ->
+      fst (OB.run_obj out_unit p e w') = fst (OB.run_obj out_unit p e w) /\
+      snd (OB.run_obj out_unit p e w') (LEx i) = snd (OB.run_obj out_unit p e w) (LEx i).
+Proof. exact OBP.obj_explicit_isolated. Qed.
+Print Assumptions C08_explicit_isolated_with_copies.
+
+(** A copy that snapshots the generator (copy.deepcopy(self.rng): the seeded regression C08-pheno-deepcopy-rng; also what python's
+    default deepcopy does to a component without a __deepcopy__ of its own) breaks both clauses: made before the seeding, its
+    output after seed(s) depends on the world at copy time; with an explicit generator it leaves that generator unconsumed. *)
+Theorem C08_snapshot_copy_refuted :
+  (exists (h p : list (OB.step Z Z)) (e : OB.env) (s : Z) (w1 w2 : world Z),
+     OB.all_np e /\ Forall (fun st => match st with OB.SSnap _ _ _ => True | _ => False end) h /\
+     fst (OB.run_obj 0%Z (OB.SCall (OBP.zseed s) :: p) (OB.env_after e h) (snd (OB.run_obj 0%Z h e w1))) <>
+     fst (OB.run_obj 0%Z (OB.SCall (OBP.zseed s) :: p) (OB.env_after e h) (snd (OB.run_obj 0%Z h e w2)))) /\
+  (exists (e : OB.env) (w : world Z), e 0%nat = LEx 0 /\
+     snd (OB.run_obj 0%Z [OB.SSnap 1 0 7; OB.SUse 1 OBP.zuse] e w) (LEx 0) = w (LEx 0) /\
+     snd (OB.run_obj 0%Z [OB.SUse 0 OBP.zuse] e w) (LEx 0) <> w (LEx 0) /\
+     snd (OB.run_obj 0%Z [OB.SCopy 1 0; OB.SUse 1 OBP.zuse] e w) (LEx 0) = snd (OB.run_obj 0%Z [OB.SUse 0 OBP.zuse] e w) (LEx 0)).
+Proof. split; [exact OBP.snapshot_copy_not_reproducible | exact OBP.snapshot_copy_does_not_consume]. Qed.
+Print Assumptions C08_snapshot_copy_refuted.
+
+(** The rng property setter of a selection protocol re-points the protocol's own generator only (finding
+    C08-selprot-rng-setter-stale-optimiser): the default optimiser built by the constructor keeps the constructor's generator, so with
+    rng = None at construction and a generator supplied through the setter the global numpy stream is still advanced; a setter that
+    re-points the optimiser too leaves both global streams untouched. *)
+Theorem C08_setter_stale_optimiser_refuted : exists (e : OB.env) (w : world Z),
+  snd (OB.run_obj 0%Z OBP.setter_stale_prog e w) LNp <> w LNp /\
+  snd (OB.run_obj 0%Z OBP.setter_repointing_prog e w) LNp = w LNp /\ snd (OB.run_obj 0%Z OBP.setter_repointing_prog e w) LPy = w LPy.
+Proof. exact OBP.setter_stale_part_not_isolated. Qed.
+Print Assumptions C08_setter_stale_optimiser_refuted.
+
+(** No function of the current source snapshots a generator (copy.copy / copy.deepcopy / pickle applied to rng, random_state,
+    <obj>.rng, <obj>._rng, global_prng; get_state / __getstate__ / __reduce__ / bit_generator.state read from one): every node of the
+    regenerated table, no exception; and the mask the regression had is not explicit-only. *)
+Theorem C08_no_generator_snapshot :
+  (forall k, FP.has FPC.COPIES (FP.direct FP.tbl k) = false) /\
+  FP.sub (N.lor FP.SELF FPC.COPIES) FP.EXPLICIT_OK = false /\ FP.has FPC.COPIES (N.lor FP.SELF FPC.COPIES) = true.
+Proof. split; [exact FPCP.no_generator_snapshot | exact FPCP.snapshot_mask_refuted]. Qed.
+Print Assumptions C08_no_generator_snapshot.
+
+Example C08_copy_hyps_satisfiable :
+  OB.only 0 (fun _ => LNp) ([OB.SNew 0 (LEx 0); OB.SCopy 1 0; OB.SCopy 2 1; OB.SUse 1 OBP.zuse; OB.SUse 2 OBP.zuse; OB.SUse 0 OBP.zuse] : list (OB.step Z Z)) /\
+  (forall (s : Z) (w1 w2 : world Z),
+    let e := (fun _ => LNp) : OB.env in let h := [OB.SCopy 1 0] : list (OB.step Z Z) in
+    let p := [OB.SUse 1 OBP.zuse; OB.SCopy 2 1; OB.SUse 2 OBP.zuse; OB.SUse 0 OBP.zuse] in
+    fst (OB.run_obj 0%Z (OB.SCall (OBP.zseed s) :: p) (OB.env_after e h) (snd (OB.run_obj 0%Z h e w1))) =
+    fst (OB.run_obj 0%Z (OB.SCall (OBP.zseed s) :: p) (OB.env_after e h) (snd (OB.run_obj 0%Z h e w2)))).
+Proof. split; [exact OBP.only_satisfiable | exact OBP.sharing_copy_reproducible]. Qed.
 
 (** non-vacuity: a concrete well-scoped program whose calls respect their footprints (spawn a stream, use it, use the
     global stream); the table lists are non-empty *)
